@@ -258,6 +258,6 @@ def tasks(tier, scale=1.0):
     combos.sort(key=lambda c: -c[0])
     n = 32
     out = [('exh-%d' % i, 'task_exh', {'combos': combos[i::n], 'scalar_max_w': 3 if tier == 'quick' else 4}) for i in range(n)]
-    nh = int((1500 if tier == 'quick' else 25000) * scale)
+    nh = int((1500 if tier == 'quick' else 60000) * scale)
     out += [('hyp-%d' % i, 'task_hyp', {'n': nh}) for i in range(8)]
     return out
